@@ -24,7 +24,7 @@ import (
 // or by assignment, directly or in a same-package helper the result is handed
 // to) or through the non-nil side of a nil test of such a field.
 func anyContent(r *core.Run) {
-	r.Rule("R-FLOW/anycontent", "every implementation of anyImpl.getAny sets a content field ([]byte field of the returned struct) on every path to a success return, or has tested one non-nil: copying content only under Message.Has loses the empty encoding of an all-default message, which the encoder then refuses")
+	r.Rule("R-FLOW/anycontent", "every implementation of anyImpl.getAny sets a content field ([]byte field of the returned struct) on every path to a success return — to something other than nil or the bare protoreflect.Value.Bytes() of a proto3 field, which is nil for the empty string — or has tested one non-nil: copying content as it is, or only under Message.Has, loses the empty encoding of an all-default message, which the encoder then refuses")
 	pk := r.P.Pkg("lib/j5reflect")
 	if pk == nil {
 		r.Fatal("anchor: package lib/j5reflect not found")
@@ -104,7 +104,21 @@ func anyContent(r *core.Run) {
 		}
 		return types.Identical(t, resStruct)
 	}
-	// does the node set a content field (to something other than nil)?
+	// maybeNil: the value is read straight out of a proto bytes field — nil whenever the field holds the empty string
+	maybeNil := func(e ast.Expr) bool {
+		if core.IsNilIdent(info, e) {
+			return true
+		}
+		if id, ok := core.Unparen(e).(*ast.Ident); ok {
+			// a local that only ever names such a read
+			if def := soleDefinition(info, id); def != nil {
+				e = def
+			}
+		}
+		c, ok := core.Unparen(e).(*ast.CallExpr)
+		return ok && core.CalleeName(info, c) == "(google.golang.org/protobuf/reflect/protoreflect.Value).Bytes"
+	}
+	// does the node set a content field (to something that cannot be nil)?
 	var sets func(n ast.Node, depth int) bool
 	sets = func(n ast.Node, depth int) bool {
 		found := false
@@ -115,7 +129,7 @@ func anyContent(r *core.Run) {
 			switch y := x.(type) {
 			case *ast.AssignStmt:
 				for i, l := range y.Lhs {
-					if isContentSel(l) && !(len(y.Rhs) == len(y.Lhs) && core.IsNilIdent(info, y.Rhs[i])) {
+					if isContentSel(l) && !(len(y.Rhs) == len(y.Lhs) && maybeNil(y.Rhs[i])) {
 						found = true
 					}
 				}
@@ -124,7 +138,7 @@ func anyContent(r *core.Run) {
 				if t != nil && types.Identical(t, resStruct) {
 					for _, el := range y.Elts {
 						if kv, ok := el.(*ast.KeyValueExpr); ok {
-							if id, ok := kv.Key.(*ast.Ident); ok && content[id.Name] && !core.IsNilIdent(info, kv.Value) {
+							if id, ok := kv.Key.(*ast.Ident); ok && content[id.Name] && !maybeNil(kv.Value) {
 								found = true
 							}
 						}
